@@ -786,6 +786,12 @@ func (c *updater) buildBackendOAuth(d *backData) {
 			uriPrefix = prefix.Value
 		}
 		uriPrefix = strings.TrimRight(uriPrefix, "/")
+		if uriPrefix == "" {
+			// an empty prefix would make "/" the allowed path, which exempts
+			// every single request from the authentication
+			c.logger.Warn("ignoring oauth configuration on %v: oauth-uri-prefix cannot be empty or the root path", oauth.Source)
+			continue
+		}
 		namespace := oauth.Source.Namespace
 		backend := c.findBackend(path.Link.Hostname(), namespace, uriPrefix)
 		if backend == nil {
